@@ -572,6 +572,20 @@ func c15Experiment(c *Ctx, r *rand.Rand, pool []*genetics.Genome) bool {
 			return false
 		}
 		var back experiment.Experiment
+		if r.Intn(2) == 0 {
+			// the receiver was in use before: it holds as many trials as are about to be read, with generations of their own and
+			// every cached aggregate computed
+			for ti := range se.exp.Trials {
+				old := experiment.Trial{Id: 100 + ti, Duration: 12345, Generations: experiment.Generations{{Id: 0, TrialId: 100 + ti},
+					{Id: 1, TrialId: 100 + ti, Solved: true, WinnerNodes: 3, WinnerGenes: 4, WinnerEvals: 5, Diversity: 6}}}
+				back.Trials = append(back.Trials, old)
+			}
+			for ti := range back.Trials {
+				_, _, _, _ = back.Trials[ti].WinnerStatistics()
+			}
+			back.Id, back.Name = 999, "in use"
+			c.Count("roundtrip.experiment_into_used_value", 1)
+		}
 		if err := back.Read(&buf); err != nil {
 			c.Violate("experiment-error", map[string]interface{}{"experiment": se.brief()}, "Experiment.Read failed: %v", err)
 			return false
